@@ -98,8 +98,9 @@ def id_star(graph: NxMixedGraph, event: Event, *, _number_recursions: int = 0) -
     if conflicts:
         raise ConflictUnidentifiable(cf_subgraph, new_event, conflicts)
 
-    # Line 9
-    return id_star_line_9(cf_subgraph)
+    # Line 9: the effect of the subscripts on the variables of the event, i.e., the remaining
+    # (ancestral) variables of the counterfactual graph are marginalized out like in line 6
+    return Sum.safe(id_star_line_9(cf_subgraph), get_free_variables(cf_subgraph, new_event))
 
 
 class ConflictUnidentifiable(Unidentifiable):
